@@ -93,7 +93,18 @@ def run_families(name: str, cases: List[Case], rng: random.Random,
     if oracle is not None:
         for c in good:
             try:
-                r = oracle(c)
+                try:
+                    r = oracle(c)
+                except RecursionError:
+                    # deep data: the oracle's own bookkeeping (terms of whole result trees) needs more frames than the
+                    # validation it judges; once more with room for it
+                    import sys
+                    lim = sys.getrecursionlimit()
+                    sys.setrecursionlimit(max(lim, 12000))
+                    try:
+                        r = oracle(c)
+                    finally:
+                        sys.setrecursionlimit(lim)
             except HarnessError:
                 r = None
             except Exception as e:  # an oracle bug must never pass silently
